@@ -363,11 +363,22 @@ def stepCore (s : DState) : DEvent → Except Panic (DState × Response × Reply
   | .reportCancel => .ok (withCancel s [] .reportError .cancelReport)
   | .inputEnter => .ok (s, .none, .none, [.inputEnter s.running.length s.cancel])
 
+/-- requests `handle_event` itself sends, outside the broadcast: a unit that reports a failed attempt
+    while the run is cancelled is told (again) about the cancellation, so that it leaves its retry delay -/
+def directDelivery (s : DState) : DEvent → List (Option Nat × Req)
+  | .attemptFailedWillRetry i _ _ =>
+    if s.cancel.isSome && s.rxOpen.contains i && s.running.any (·.1 == i) then [(some i, .otherCancel)] else []
+  | _ => []
+
+def Out.withDirect (o : Out) (d : List (Option Nat × Req)) : Out := { o with delivered := d ++ o.delivered }
+
 /-- `handle_event` followed by the response handling of `run` (the broadcast) -/
 def step (s : DState) (e : DEvent) : Except Panic (DState × Out) :=
   match stepCore s e with
   | .error p => .error p
-  | .ok r => .ok (finishStep r.1 r.2.1 r.2.2.1 r.2.2.2)
+  | .ok r =>
+    let fs := finishStep r.1 r.2.1 r.2.2.1 r.2.2.2
+    .ok (fs.1, fs.2.withDirect (directDelivery s e))
 
 /-- run a whole event list; stops at the first panic -/
 def run (s : DState) : List DEvent → Except Panic (DState × List Out)
